@@ -454,6 +454,7 @@ impl<K: CacheKey + 'static> MultiLayerCacheImpl<K> {
 
         // Store in first layer (L1 - fastest) if validation passed
         self.layers[0].put(key.clone(), value).await?;
+        self.drop_older_copies(&key).await;
 
         // Initialize promotion tracking
         if let Ok(mut tracker) = self.promotion_tracker.write() {
@@ -463,6 +464,17 @@ impl<K: CacheKey + 'static> MultiLayerCacheImpl<K> {
         self.metrics.record_put(0, start_time.elapsed());
 
         Ok(validation_result)
+    }
+
+    /// Drop the copies of `key` that slower layers hold.
+    ///
+    /// A put stores its value in the first layer only. An older value of the
+    /// key in a slower layer would be served again as soon as the new one
+    /// leaves the first layer (eviction, expiry), so it is removed.
+    async fn drop_older_copies(&self, key: &K) {
+        for layer in self.layers.iter().skip(1) {
+            let _ = layer.remove(key).await;
+        }
     }
 
     /// Put with content validation and TTL
@@ -516,6 +528,7 @@ impl<K: CacheKey + 'static> MultiLayerCacheImpl<K> {
 
         // Store in first layer (L1 - fastest) if validation passed
         self.layers[0].put_with_ttl(key.clone(), value, ttl).await?;
+        self.drop_older_copies(&key).await;
 
         // Initialize promotion tracking
         if let Ok(mut tracker) = self.promotion_tracker.write() {
@@ -828,7 +841,17 @@ impl<K: CacheKey + 'static> AsyncCache<K> for MultiLayerCacheImpl<K> {
             }
         }
 
-        // Not found in any layer
+        // Not found in any layer. A put that ran meanwhile moves the key up:
+        // it stores the value in the first layer and drops the slower copy this
+        // lookup was heading for. Look once more where such a value would be.
+        if self.layers.len() > 1
+            && let Ok(Some(value)) = self.layers[0].get(key).await
+        {
+            self.layer_hits[0].fetch_add(1, Ordering::Relaxed);
+            self.metrics.record_get(true, start_time.elapsed());
+            return Ok(Some(value));
+        }
+
         self.metrics.record_get(false, start_time.elapsed());
         Ok(None)
     }
@@ -838,6 +861,9 @@ impl<K: CacheKey + 'static> AsyncCache<K> for MultiLayerCacheImpl<K> {
 
         // Store in first layer (L1 - fastest)
         let result = self.layers[0].put(key.clone(), value).await;
+        if result.is_ok() {
+            self.drop_older_copies(&key).await;
+        }
 
         // Initialize promotion tracking
         if result.is_ok()
@@ -856,6 +882,9 @@ impl<K: CacheKey + 'static> AsyncCache<K> for MultiLayerCacheImpl<K> {
 
         // Store in first layer (L1 - fastest)
         let result = self.layers[0].put_with_ttl(key.clone(), value, ttl).await;
+        if result.is_ok() {
+            self.drop_older_copies(&key).await;
+        }
 
         // Initialize promotion tracking
         if result.is_ok()
